@@ -18,7 +18,7 @@ PROPERTY = 'C10'
 LEVEL = 'exploration'
 TARGET = 'checks.c10:run'
 
-CONTAINERS = ['list1', 'list2', 'tuple3', 'dict2', 'dictnested3', 'nested2', 'bare1']
+CONTAINERS = ['list1', 'list2', 'tuple3', 'dict2', 'dictnested3', 'nested2', 'bare1', 'list6', 'dict7']
 # block name -> (in, out) space label
 BLOCKS = {
     'P': ('a', 'a'), 'Q': ('a', 'a'), 'D': ('a', 'a'), 'D2': ('a', 'a'), 'I': ('a', 'a'), 'K': ('a', 'a'),
@@ -28,9 +28,9 @@ BLOCKS = {
     'P16': ('a16', 'a16'), 'I16': ('a16', 'a16'), 'Pc': ('ac', 'ac'), 'G16': ('a16', 'b16'),
 }
 TRIPLES = {
-    'diag': [['P', 'G', 'D'], ['I', 'K', 'Q'], ['R', 'P', 'W'], ['D', 'D2', 'K'], ['It2', 'P', 'Bk'], ['Rt', 'R', 'Hs'], ['Q', 'P', 'D2'], ['D2', 'I', 'D']],
-    'row': [['R', 'Rt', 'R'], ['P', 'Q', 'D'], ['G', 'G2', 'G'], ['Bk', 'P', 'K'], ['I', 'K', 'Q'], ['D', 'D2', 'I']],
-    'col': [['Rt', 'R', 'Rt'], ['P', 'Q', 'D'], ['G', 'P', 'K'], ['Ck', 'G2', 'I'], ['W', 'W', 'W'], ['D2', 'D', 'Q']],
+    'diag': [['Hs', 'Hs', 'Hs'], ['P', 'Q', 'D', 'D2', 'I', 'K', 'Q'], ['P', 'G', 'D'], ['I', 'K', 'Q'], ['R', 'P', 'W'], ['D', 'D2', 'K'], ['It2', 'P', 'Bk'], ['Rt', 'R', 'Hs'], ['Q', 'P', 'D2'], ['D2', 'I', 'D']],
+    'row': [['P', 'Q', 'D', 'D2', 'I', 'K', 'Q'], ['R', 'Rt', 'R'], ['P', 'Q', 'D'], ['G', 'G2', 'G'], ['Bk', 'P', 'K'], ['I', 'K', 'Q'], ['D', 'D2', 'I']],
+    'col': [['Q', 'D2', 'P', 'K', 'D', 'P', 'I'], ['Rt', 'R', 'Rt'], ['P', 'Q', 'D'], ['G', 'P', 'K'], ['Ck', 'G2', 'I'], ['W', 'W', 'W'], ['D2', 'D', 'Q']],
 }
 
 
@@ -43,6 +43,10 @@ def op_cases():
     for cls, triples in TRIPLES.items():
         for cont in CONTAINERS:
             for t in triples:
+                if len(t) < arity(cont):
+                    continue
+                if arity(cont) < 6 and len(t) > 3:
+                    continue
                 out.append({'cls': cls, 'cont': cont, 'blocks': t[: arity(cont)]})
     seen, uniq = set(), []
     for c in out:
@@ -135,6 +139,10 @@ def container(cont, ops):
         return [[ops[0], ops[1]]]
     if cont == 'bare1':
         return ops[0]
+    if cont == 'list6':
+        return list(ops[:6])
+    if cont == 'dict7':   # keys inserted in reverse order; leaf order is the sorted key order k0..k6
+        return {f'k{i}': ops[i] for i in reversed(range(7))}
     raise KeyError(cont)
 
 
